@@ -443,11 +443,43 @@ fn gen_module(id: usize, sh: &Shape) -> String {
     s
 }
 
+/// Field names that coincide with identifiers the generated code (or the builder API) uses itself. All of them are
+/// accepted by the derive on the pinned tree (`target` and `new` are not and are left out): a struct may call its
+/// fields whatever it likes.
+const FIELD_NAMES: [&str; 36] = [
+    "normalized_time", "frame_index", "enable_start_override", "time", "values", "value", "data", "timescale", "boundary_times", "timeline", "keyframe", "builder",
+    "args", "config", "index", "start", "end", "position", "duration", "delay", "repeat", "reverse", "default_easing", "easing", "build", "update", "self_", "t_a",
+    "result", "lerp", "x0", "y1", "frames", "keyframes", "default", "clone",
+];
+
+/// One module per name: `struct W { a: f32, <name>: f32, b: i32 }` (all animated), in two field orders; every
+/// field must interpolate linearly, also after start_with and through keyframe_from.
+fn gen_names_bin() -> String {
+    let mut src = prelude();
+    let mut calls = String::new();
+    for (i, name) in FIELD_NAMES.iter().enumerate() {
+        for order in 0..2 {
+            let id = 1000 + 2 * i + order;
+            let fields = if order == 0 { format!("pub a: f32, pub {name}: f32, pub b: i32") } else { format!("pub {name}: f32, pub a: f32, pub b: i32") };
+            src += &format!("mod n{id} {{\n    use super::*;\n    #[derive(Animate, Clone, Debug, Default, PartialEq)]\n    pub struct W {{ {fields} }}\n    pub fn run(r: &mut Report) {{\n        let id = {id}usize;\n");
+            src += &format!("        let tl = W::timeline().duration_seconds(4.0).keyframe(W::keyframe(0.0).a(0.0).{name}(10.0).b(0)).keyframe(W::keyframe(1.0).a(1.0).{name}(20.0).b(100)).build();\n");
+            src += &format!("        let from = W {{ a: 0.5, {name}: 30.0, b: 40 }};\n        let mut tls = W::timeline().duration_seconds(4.0).keyframe(W::keyframe_from(&W {{ a: 0.0, {name}: 10.0, b: 0 }}, 0.0)).keyframe(W::keyframe(1.0).a(1.0).{name}(20.0).b(100)).build();\n        tls.start_with(&from);\n");
+            src += &format!("        for j in 0..=8 {{\n            let t = j as f32 * 0.5; let q = (t / 4.0) as f64;\n            let mut w = W {{ a: -1.0, {name}: -1.0, b: -1 }}; tl.update(&mut w, t);\n            r.checks += 1; if (w.a as f64 - q).abs() > 1e-5 || (w.{name} as f64 - (10.0 + 10.0 * q)).abs() > 1e-4 || (w.b as f64 - 100.0 * q).abs() > 0.5001 {{ r.bad(id, format!(\"name: field `{name}`: t={{t}}: {{:?}}, expected a={{}} {name}={{}} b={{}}\", w, q, 10.0 + 10.0 * q, 100.0 * q)); }}\n");
+            src += &format!("            let mut w = W {{ a: -1.0, {name}: -1.0, b: -1 }}; tls.update(&mut w, t);\n            r.checks += 1; if (w.a as f64 - (0.5 + 0.5 * q)).abs() > 1e-5 || (w.{name} as f64 - (30.0 - 10.0 * q)).abs() > 1e-4 || (w.b as f64 - (40.0 + 60.0 * q)).abs() > 0.5001 {{ r.bad(id, format!(\"name: field `{name}` after start_with: t={{t}}: {{:?}}\", w)); }}\n        }}\n    }}\n}}\n");
+            calls += &format!("    n{id}::run(&mut r);\n");
+        }
+    }
+    src += &format!("fn main() {{\n    let mut r = Report {{ checks: 0 }};\n{calls}    println!(\"DONE {{}}\", r.checks);\n}}\n");
+    src
+}
+
 fn layer_b(sel: &[Shape], sink: &mut VSink) -> (u64, u64) {
     let nbins = 8usize;
-    let bins: Vec<String> = (0..nbins).map(|i| format!("c17b_{i}")).collect();
+    let mut bins: Vec<String> = (0..nbins).map(|i| format!("c17b_{i}")).collect();
+    bins.push("c17b_names".to_string());
     let dir = prepare_crate("c17b", &bins);
-    for (bi, b) in bins.iter().enumerate() {
+    write_if_changed(&dir.join("src").join("c17b_names.rs"), &gen_names_bin());
+    for (bi, b) in bins.iter().enumerate().take(nbins) {
         let mut src = prelude();
         let mut calls = String::new();
         for (i, sh) in sel.iter().enumerate() {
@@ -479,6 +511,10 @@ fn layer_b(sel: &[Shape], sink: &mut VSink) -> (u64, u64) {
             if let Some(rest) = l.strip_prefix("MISMATCH ") {
                 let (id, what) = rest.split_once(' ').unwrap_or((rest, ""));
                 let i: usize = id.parse().unwrap_or(0);
+                if what.starts_with("name:") {
+                    sink.add("compiled:field-name-collides-with-generated-code", 5 + i as u64, || (format!("`#[derive(Animate)] struct W {{ a: f32, <name>: f32, b: i32 }}`: {what}"), json!({"declaration": "#[derive(Animate)] struct W { a: f32, <name>: f32, b: i32 }", "detail": what})));
+                    continue;
+                }
                 let clause = if what.starts_with("setter") { "setter-presence" } else if what.starts_with("keyframe_from") { "keyframe_from" } else if what.starts_with("metadata") { "metadata" } else if what.contains("un-animated") { "unanimated-field-touched" } else if what.starts_with("stepped") { "stepped-animation" } else { "evaluation" };
                 sink.add(&format!("compiled:{clause}"), 10 + i as u64, || (format!("`#[derive(Animate)] {}`: {what}", sel[i].decl()), sel[i].to_json()));
             } else if let Some(n) = l.strip_prefix("DONE ") {
@@ -616,7 +652,7 @@ pub fn run(run: Run) -> ! {
     cov.insert("programs_compiled".into(), json!(compiled));
     cov.insert("evaluations".into(), json!(shapes_a + checks));
     cov.insert("distinct_nontrivial".into(), json!(shapes_a));
-    cov.insert("rule".into(), json!(format!("Layer A (in-process expansion of the real derive source, parsed as a syn::File): ALL struct shapes with {} fields over types {{f32,f64,u8,i16,i32,u32}} x every #[animate] subset x struct visibility {{private,pub,pub(crate)}} (field visibilities rotated) x {{local, #[animate(remote = ...)] proxy (bare identifier or module-qualified path)}}, with doc comments / #[allow] / #[cfg] attributes before or after the #[animate] marker and on the struct (rotated over all shapes, and exhaustively for 1..2 fields), plus 48 WIDE structs (8, 12, 20, 33 fields x markers none/all/even/first/last/one-in-the-middle x local/remote; three of them compiled in quick, all in thorough); oracle: animated field set = attributed fields, or all if none is attributed; the keyframe builder has exactly one public setter per animated field with the field's type, keyframe data and t_<field> sub-timelines likewise, keyframe_from / values_from / update / start_with touch exactly the animated fields and are wired name-to-name, Target is the (remote) type, visibility copied, accessors forwarded to the time scale. Layer B: {} shapes compiled with the real derive: setter presence observed at run time (inherent-vs-trait method resolution), keyframe_from copies exactly the animated fields (and a later setter, or a second call of the same setter, overrides), un-animated fields keep sentinels, every animated field interpolates per a linear reference on a 41-point time grid (in every other shape each (position, field) is its own keyframe, so keyframes share positions) (delay, two cycles, after the end), metadata accessors return the configured values, and a stepped animation of the first animated field (40 holds = 80 keyframes with tied positions, end-of-hold keyframes added before start-of-hold ones) shows each hold's value inside the hold ({} run-time checks)", if thorough { "1..5 (6 types) and 6 (3 types)" } else { "1..4" }, compiled, checks)));
+    cov.insert("rule".into(), json!(format!("Layer A (in-process expansion of the real derive source, parsed as a syn::File): ALL struct shapes with {} fields over types {{f32,f64,u8,i16,i32,u32}} x every #[animate] subset x struct visibility {{private,pub,pub(crate)}} (field visibilities rotated) x {{local, #[animate(remote = ...)] proxy (bare identifier or module-qualified path)}}, with doc comments / #[allow] / #[cfg] attributes before or after the #[animate] marker and on the struct (rotated over all shapes, and exhaustively for 1..2 fields), plus (Layer B) 72 structs whose middle or first field is named like an identifier of the generated code or of the builder API (normalized_time, frame_index, values, easing, build, ...), plus 48 WIDE structs (8, 12, 20, 33 fields x markers none/all/even/first/last/one-in-the-middle x local/remote; three of them compiled in quick, all in thorough); oracle: animated field set = attributed fields, or all if none is attributed; the keyframe builder has exactly one public setter per animated field with the field's type, keyframe data and t_<field> sub-timelines likewise, keyframe_from / values_from / update / start_with touch exactly the animated fields and are wired name-to-name, Target is the (remote) type, visibility copied, accessors forwarded to the time scale. Layer B: {} shapes compiled with the real derive: setter presence observed at run time (inherent-vs-trait method resolution), keyframe_from copies exactly the animated fields (and a later setter, or a second call of the same setter, overrides), un-animated fields keep sentinels, every animated field interpolates per a linear reference on a 41-point time grid (in every other shape each (position, field) is its own keyframe, so keyframes share positions) (delay, two cycles, after the end), metadata accessors return the configured values, and a stepped animation of the first animated field (40 holds = 80 keyframes with tied positions, end-of-hold keyframes added before start-of-hold ones) shows each hold's value inside the hold ({} run-time checks)", if thorough { "1..5 (6 types) and 6 (3 types)" } else { "1..4" }, compiled, checks)));
     cov.insert("exhaustive".into(), json!(true));
     cov.insert("compiled_runtime_checks".into(), json!(checks));
     cov.insert("samples".into(), json!(acc.samples));
